@@ -293,8 +293,10 @@ class Machine(object):
     store_calls0 = len(h.store.calls) if h.store else 0
     live["state_before"] = state_digest(h.est)
     fired0 = len(h.store.fired) if h.store else 0
-    with world.DrawObserver() as obs, world.GlassoSeam() as gs:
+    with world.DrawObserver() as obs, world.GlassoSeam() as gs, world.ConvertObserver() as co:
       out = self._call(ev, live, h.est.fit, *args, **kwargs)
+    if type(live.get("exc")).__name__ == "NonPSDError":
+      live["psd_within_rounding"] = co.psd_within_rounding()
     live["fault_fired"] = bool(h.store and len(h.store.fired) > fired0)
     if live["fault_fired"]:
       ev["fault_fired"] = True
